@@ -1,4 +1,6 @@
 #!/bin/sh
+# experiments on changed trees must not overwrite the committed evidence of the unchanged tree
+export VERIF_EVIDENCE_DIR=/tmp/verif-evidence-scratch
 # tools/mut.sh <PROP> <file-relative-to-repo> <sed-expression> : run a check on a scratch copy with one mutation
 set -e
 D=$(mktemp -d /tmp/mut.XXXXXX)
